@@ -579,6 +579,13 @@ class Machine:
                 return self.ev(n[1], env)
             except (Return, Break, Continue):
                 raise Unspec("control statement through eval")
+        if t == "sinterp":
+            # ('sinterp', call): s('<{call}>') - the placeholder is
+            # evaluated in the current scope, errors pass unchanged
+            v = self.ev(n[1], env)
+            if not isinstance(v, str):
+                raise Unspec("interpolation of a non-string")
+            return "<" + v + ">"
         if t == "rawerrv":
             # ('rawerrv', source text, value): raises the given user value
             raise LangError(copy.deepcopy(n[2]))
@@ -1130,6 +1137,8 @@ def R(n, need, full):
         return s
     if t in ("raw", "rawerr", "rawerrv"):
         return n[1]
+    if t == "sinterp":
+        return "s(" + lit("<{" + R(n[1], 0, full) + "}>") + ")"
     if t == "evalstr":
         return "eval(" + lit(R(n[1], 0, full)) + ")"
     if t == "evalnode":
